@@ -68,11 +68,38 @@ static int ref_decode(const char *s, unsigned n, char *out, unsigned *outlen)
     return 1;
 }
 
+/* reference for white space and comments: index of the first byte that is neither white
+ * space nor inside a comment (n: there is none; an unterminated comment swallows the rest) */
+static int ref_space(char c) { return c == ' ' || c == '\t' || c == '\n' || c == '\v' || c == '\f' || c == '\r'; }
+static unsigned ref_skip(const char *s, unsigned n)
+{
+    unsigned k = 0, j, guard;
+    for (guard = 0; guard <= VP_LEN; guard++) {
+        if (k >= n)
+            return n;
+        if (ref_space(s[k])) {
+            k++;
+        } else if (s[k] == '/' && k + 1 < n && s[k + 1] == '*') {
+            for (j = k + 2; j + 1 < n && !(s[j] == '*' && s[j + 1] == '/'); j++)
+                ;
+            if (j + 1 >= n)
+                return n;
+            k = j + 2;
+        } else if (s[k] == '/' && k + 1 < n && s[k + 1] == '/') {
+            for (j = k + 2; j < n && s[j] != '\n'; j++)
+                ;
+            k = j;
+        } else
+            return k;
+    }
+    return n;
+}
+
 void harness(void)
 {
     struct conf_parse parse;
     char want[VP_LEN + 1];
-    unsigned wl = 0, i;
+    unsigned wl = 0, i, first;
     char *tok;
     int simple;
 
@@ -83,6 +110,7 @@ void harness(void)
         text[i] = c;
     }
     text[VP_LEN] = '\0';
+    first = ref_skip(text, VP_LEN);
     memset(&parse, 0, sizeof(parse));
     parse.data = parse.curr = parse.line_start = text;
     parse.line_num = 1;
@@ -103,6 +131,10 @@ void harness(void)
     tok = conf_parse_string(&parse);
 
     VP_ASSERT(parse.curr >= text && parse.curr <= text + VP_LEN, "the cursor stays inside the text");
+    if (first == VP_LEN)
+        VP_ASSERT(tok == NULL, "C16: a text of white space and comments only holds no token");
+    else if ((text[first] >= 'a' && text[first] <= 'z') || (text[first] >= 'A' && text[first] <= 'Z') || (text[first] >= '0' && text[first] <= '9'))
+        VP_ASSERT(tok != NULL && tok[0] == text[first], "C16: white space and comments are skipped and nothing else: the token starts at the first byte after them");
     if (tok) {
         unsigned tl = 0;
         while (tl <= VP_LEN && tok[tl] != '\0')
